@@ -5,6 +5,7 @@ import (
 	"sort"
 	"testing"
 
+	"0chain.net/chaincore/block"
 	"0chain.net/chaincore/node"
 	"pgregory.net/rapid"
 	"verifharness/vkit"
@@ -15,91 +16,150 @@ import (
 // set has at least `replicators` members; with replication disabled everyone
 // stores every block.
 func TestC42_Replicators(t *testing.T) {
-	st := vkit.For("C42").SetRule("two chain objects whose sharder pools hold the same 1..12 derived sharders inserted in two drawn orders (optionally re-adding one), drawn block hash (incl. hashes engineered to tie XOR scores) and replicator count -2..n+2; oracle: same replicator id set from CanShardBlockWithReplicators on both, agreement with IsBlockSharderFromHash for every sharder, size >= replicators when n >= replicators, everyone when replicators <= 0; non-trivial = n >= 2, 1 <= replicators <= n and different insertion orders; distinct by (ids, orders, hash, replicators)")
+	st := vkit.For("C42").SetRule("per case 1..3 magic blocks (starting rounds 0, S1, S2) whose sharder pools are drawn subsets of 14 derived sharders (often equal size, different members); two long-lived chain objects hold the same magic blocks with sharders inserted in two drawn orders (optionally re-adding one); then 3..8 queries (round biased to the view-change-offset window around each starting round, block hash drawn from a small pool so hashes repeat across rounds, incl. low-entropy hashes forcing XOR-score ties) with replicator count -2..n+2; oracle: replicator id set from CanShardBlockWithReplicators equal on both chains, equal to the set computed by a fresh chain that only knows the magic block in force, agreeing with IsBlockSharderFromHash and IsBlockSharder for every sharder; size >= replicators when n >= replicators; everyone when replicators <= 0; non-trivial = query with n >= 2 sharders, 1 <= replicators <= n and different insertion orders; distinct by (pools, orders, round, hash, replicators)")
 	rapid.Check(t, func(t *rapid.T) {
-		n := rapid.IntRange(1, 12).Draw(t, "sharders")
-		idx := rapid.Permutation(seqInts(30)).Draw(t, "which")[:n]
-		order2 := rapid.Permutation(append([]int{}, idx...)).Draw(t, "order2")
-		repl := rapid.IntRange(-2, n+2).Draw(t, "replicators")
-		hashBytes := rapid.SliceOfN(rapid.Byte(), 32, 32).Draw(t, "hash")
-		if rapid.IntRange(0, 3).Draw(t, "lowEntropyHash") == 0 {
-			// few distinct bytes => many equal XOR scores => the tie-break decides
-			b := rapid.Byte().Draw(t, "fill")
-			for i := range hashBytes {
-				hashBytes[i] = b
-			}
+		repl := rapid.IntRange(-2, 8).Draw(t, "replicators")
+		nMB := rapid.IntRange(1, 3).Draw(t, "magicBlocks")
+		starts := []int64{0}
+		for i := 1; i < nMB; i++ {
+			starts = append(starts, starts[i-1]+rapid.Int64Range(1, 60).Draw(t, "gap"))
 		}
-		hash := fmt.Sprintf("%x", hashBytes)
-		build := func(order []int, reAdd bool) (*Chain, []*node.Node) {
+		sameSize := rapid.Bool().Draw(t, "sameSize")
+		size0 := rapid.IntRange(1, 10).Draw(t, "sharders")
+		pools := make([][]int, nMB)
+		orders2 := make([][]int, nMB)
+		for i := range pools {
+			n := size0
+			if !sameSize {
+				n = rapid.IntRange(1, 10).Draw(t, "sharders")
+			}
+			pools[i] = rapid.Permutation(seqInts(14)).Draw(t, "which")[:n]
+			orders2[i] = rapid.Permutation(append([]int{}, pools[i]...)).Draw(t, "order2")
+		}
+		mkChain := func(orders [][]int, only int, reAdd bool) *Chain {
 			c := vChain()
 			c.ChainConfig.(*ConfigImpl).conf.NumReplicators = repl
-			mb := vMagicBlock(0, 1)
-			for _, i := range order {
-				if err := mb.Sharders.AddNode(vNode(node.NodeTypeSharder, i)); err != nil {
-					t.Fatalf("VERIF-HARNESS-ERROR %v", err)
+			for i, order := range orders {
+				if only >= 0 && i != only {
+					continue
 				}
-			}
-			if reAdd {
-				if err := mb.Sharders.AddNode(vNode(node.NodeTypeSharder, order[len(order)-1])); err != nil {
-					t.Fatalf("VERIF-HARNESS-ERROR %v", err)
+				mb := vMagicBlock(starts[i], int64(i+1))
+				for _, k := range order {
+					if err := mb.Sharders.AddNode(vNode(node.NodeTypeSharder, k)); err != nil {
+						t.Fatalf("VERIF-HARNESS-ERROR %v", err)
+					}
 				}
+				if reAdd {
+					if err := mb.Sharders.AddNode(vNode(node.NodeTypeSharder, order[len(order)-1])); err != nil {
+						t.Fatalf("VERIF-HARNESS-ERROR %v", err)
+					}
+				}
+				if only >= 0 {
+					mb.StartingRound = 0
+				}
+				c.SetMagicBlock(mb)
 			}
-			c.SetMagicBlock(mb)
-			return c, mb.Sharders.CopyNodes()
+			return c
 		}
-		c1, nodes1 := build(idx, false)
-		c2, nodes2 := build(order2, rapid.Bool().Draw(t, "reAdd"))
-		ids := func(c *Chain, nodes []*node.Node) []string {
-			_, reps := c.CanShardBlockWithReplicators(10, hash, nodes[0])
+		c1 := mkChain(pools, -1, false)
+		c2 := mkChain(orders2, -1, rapid.Bool().Draw(t, "reAdd"))
+		hashPool := make([]string, rapid.IntRange(1, 3).Draw(t, "hashes"))
+		for i := range hashPool {
+			hb := rapid.SliceOfN(rapid.Byte(), 32, 32).Draw(t, "hash")
+			if rapid.IntRange(0, 3).Draw(t, "lowEntropyHash") == 0 {
+				b := rapid.Byte().Draw(t, "fill")
+				for k := range hb {
+					hb[k] = b
+				}
+			}
+			hashPool[i] = fmt.Sprintf("%x", hb)
+		}
+		ids := func(c *Chain, rnd int64, hash string) []string {
+			nodes := c.GetMagicBlock(rnd).Sharders.CopyNodes()
+			_, reps := c.CanShardBlockWithReplicators(rnd, hash, nodes[0])
 			var out []string
+			set := map[string]bool{}
 			for _, r := range reps {
 				out = append(out, r.GetKey())
+				set[r.GetKey()] = true
 			}
 			sort.Strings(out)
-			// each sharder's own answer must agree with membership in that set
-			set := map[string]bool{}
-			for _, k := range out {
-				set[k] = true
-			}
+			blk := &block.Block{}
+			blk.Round = rnd
+			blk.Hash = hash
 			for _, nd := range nodes {
-				can, _ := c.CanShardBlockWithReplicators(10, hash, nd)
-				is := c.IsBlockSharderFromHash(10, hash, nd)
-				if can != is || (repl > 0 && can != set[nd.GetKey()]) {
-					t.Fatalf("%s", vkit.Violation("C42", "self-answer-disagrees", "sharder %s: CanShardBlock=%v IsBlockSharder=%v in replicator set=%v (n=%d replicators=%d)", nd.GetKey()[:8], can, is, set[nd.GetKey()], n, repl))
+				can, _ := c.CanShardBlockWithReplicators(rnd, hash, nd)
+				is := c.IsBlockSharderFromHash(rnd, hash, nd)
+				isb := c.IsBlockSharder(blk, nd)
+				if can != is || can != isb || (repl > 0 && can != set[nd.GetKey()]) {
+					t.Fatalf("%s", vkit.Violation("C42", "self-answer-disagrees", "round %d sharder %s: CanShardBlock=%v IsBlockSharderFromHash=%v IsBlockSharder=%v in replicator set=%v (replicators=%d, magic blocks start at %v)", rnd, nd.GetKey()[:8], can, is, isb, set[nd.GetKey()], repl, starts))
 				}
 			}
 			return out
 		}
-		s1, s2 := ids(c1, nodes1), ids(c2, nodes2)
-		if fmt.Sprint(s1) != fmt.Sprint(s2) {
-			t.Fatalf("%s", vkit.Violation("C42", "order-dependent", "replicator sets differ between insertion orders %v / %v: %d vs %d members (hash %s, replicators %d)", idx, order2, len(s1), len(s2), hash[:16], repl))
-		}
-		again := ids(c1, nodes1)
-		if fmt.Sprint(again) != fmt.Sprint(s1) {
-			t.Fatalf("%s", vkit.Violation("C42", "not-repeatable", "two calls give different replicator sets"))
-		}
-		if repl <= 0 && len(s1) != n {
-			t.Fatalf("%s", vkit.Violation("C42", "disabled-not-everyone", "replication disabled (%d) but only %d of %d sharders store the block", repl, len(s1), n))
-		}
-		if repl > 0 && n >= repl && len(s1) < repl {
-			t.Fatalf("%s", vkit.Violation("C42", "too-few-replicators", "%d sharders, %d replicators configured, only %d chosen", n, repl, len(s1)))
-		}
-		st.Case()
-		nt := n >= 2 && repl >= 1 && repl <= n && fmt.Sprint(idx) != fmt.Sprint(order2)
-		if len(s1) > repl && repl > 0 {
-			st.Class("score_tie_at_cutoff")
-		}
-		if repl <= 0 {
-			st.Class("replication_disabled")
-		}
-		if repl > n {
-			st.Class("more_replicators_than_sharders")
-		}
-		if nt {
-			st.NonTrivial(fmt.Sprint(idx), fmt.Sprint(order2), hash, repl)
-		}
-		if st.WantSample(nt) {
-			st.Sample(nt, map[string]interface{}{"sharders": idx, "order2": order2, "hash": hash, "replicators": repl, "chosen": len(s1)})
+		nq := rapid.IntRange(3, 8).Draw(t, "queries")
+		for q := 0; q < nq; q++ {
+			base := starts[rapid.IntRange(0, nMB-1).Draw(t, "near")]
+			rnd := base + rapid.Int64Range(-2, ViewChangeOffset+2).Draw(t, "delta")
+			if rnd < 0 {
+				rnd = 0
+			}
+			hash := rapid.SampledFrom(hashPool).Draw(t, "h")
+			// magic block in force (reference floor lookup with the view-change offset)
+			qr := rnd
+			if qr >= ViewChangeOffset+1 {
+				qr -= ViewChangeOffset
+			}
+			inForce := 0
+			for i, s := range starts {
+				if s <= qr {
+					inForce = i
+				}
+			}
+			n := len(pools[inForce])
+			s1, s2 := ids(c1, rnd, hash), ids(c2, rnd, hash)
+			fresh := ids(mkChain(pools, inForce, false), 0, hash)
+			what := fmt.Sprintf("round %d (magic block %d of %v in force, %d sharders) hash %s replicators %d", rnd, inForce, starts, n, hash[:12], repl)
+			if fmt.Sprint(s1) != fmt.Sprint(s2) {
+				t.Fatalf("%s", vkit.Violation("C42", "order-dependent", "replicator sets differ between insertion orders: %d vs %d members :: %s", len(s1), len(s2), what))
+			}
+			if fmt.Sprint(s1) != fmt.Sprint(fresh) {
+				t.Fatalf("%s", vkit.Violation("C42", "history-dependent", "a long-running node computes %d replicators %v, a fresh node that only knows the magic block in force computes %d %v :: %s", len(s1), short(s1), len(fresh), short(fresh), what))
+			}
+			if repl <= 0 && len(s1) != n {
+				t.Fatalf("%s", vkit.Violation("C42", "disabled-not-everyone", "replication disabled but only %d of %d sharders store the block :: %s", len(s1), n, what))
+			}
+			if repl > 0 && n >= repl && len(s1) < repl {
+				t.Fatalf("%s", vkit.Violation("C42", "too-few-replicators", "only %d chosen :: %s", len(s1), what))
+			}
+			st.Case()
+			nt := n >= 2 && repl >= 1 && repl <= n && fmt.Sprint(pools[inForce]) != fmt.Sprint(orders2[inForce])
+			if len(s1) > repl && repl > 0 {
+				st.Class("score_tie_at_cutoff")
+			}
+			if repl <= 0 {
+				st.Class("replication_disabled")
+			}
+			if repl > n {
+				st.Class("more_replicators_than_sharders")
+			}
+			if nMB > 1 && rnd >= starts[1] && rnd < starts[1]+ViewChangeOffset {
+				st.Class("round_inside_view_change_offset_window")
+			}
+			if nt {
+				st.NonTrivial(fmt.Sprint(pools), fmt.Sprint(orders2), rnd, hash, repl)
+			}
+			if st.WantSample(nt) {
+				st.Sample(nt, map[string]interface{}{"query": what, "pools": pools, "chosen": len(s1)})
+			}
 		}
 	})
+}
+
+func short(ids []string) []string {
+	out := make([]string, len(ids))
+	for i, s := range ids {
+		out[i] = s[:6]
+	}
+	return out
 }
